@@ -18,7 +18,7 @@ func init() {
 		Gen: func(r *Rng, tier string, emit func(Case)) {
 			n := 1500
 			if tier == "thorough" {
-				n = 60000
+				n = 40000
 			}
 			for i := 0; i < n; i++ {
 				h := genHistory(r, tier, true)
